@@ -22,6 +22,8 @@ static void mode_single(void){
   vc_rng r; vc_case_rng(&r,2); int err;
   if(IS_FUZZING) srand((unsigned)vc_u32(&r));
   int Fs=VC_PICK(&r,vk_rates), ch=1+vc_below(&r,2), app=VC_PICK(&r,vk_apps);
+  /* one case in eight starves the layers: forced-stereo hybrid (or MDCT) at 10..26 kb/s, where the bit allocation works at its thresholds; the frozen reference decoder is the judge */
+  int starve=vc_chance(&r,1,8); if(starve){ Fs=vc_chance(&r,3,4)?48000:24000; ch=vc_chance(&r,4,5)?2:1; app=vc_chance(&r,2,3)?OPUS_APPLICATION_VOIP:OPUS_APPLICATION_AUDIO; vc_count("starved_layer_streams",1); }
   OpusEncoder *e=opus_encoder_create(Fs,ch,app,&err); if(!e){ vc_viol("create:failed","opus_encoder_create(%d,%d,%d) err=%d",Fs,ch,app,err); return; }
   vk_encset set; vk_encset_default(&set,app);
   int Fs2=VC_PICK(&r,vk_rates), ch2=1+vc_below(&r,2), Fs3=VC_PICK(&r,vk_rates), ch3=1+vc_below(&r,2);
@@ -32,11 +34,12 @@ static void mode_single(void){
   static float f[5760*2]; static opus_int16 s16[5760*2]; static opus_int32 s24[5760*2]; static float out[5760*2]; char hist[500]; int ho=0; hist[0]=0;
   /* initial settings */
   for(int i=vc_below(&r,6);i>0;i--){ char w[40]; int rc=vk_enc_random_ctl(e,&set,&r,ch,w,sizeof w); if(rc!=OPUS_OK) vc_viol("ctl:legal-rejected","%s returned %d",w,rc); if(ho<440) ho+=snprintf(hist+ho,sizeof hist-ho,"%s ",w); }
+  if(starve){ set.force_mode=vc_chance(&r,3,4)?VK_MODE_HYBRID:VK_MODE_CELT; opus_encoder_ctl(e,VK_SET_FORCE_MODE_REQUEST,set.force_mode); if(ch==2){ set.force_channels=2; opus_encoder_ctl(e,OPUS_SET_FORCE_CHANNELS(2)); } set.bandwidth= Fs==48000?(vc_chance(&r,2,3)?OPUS_BANDWIDTH_FULLBAND:OPUS_BANDWIDTH_SUPERWIDEBAND):OPUS_BANDWIDTH_SUPERWIDEBAND; opus_encoder_ctl(e,OPUS_SET_BANDWIDTH(set.bandwidth)); set.max_bandwidth=OPUS_BANDWIDTH_FULLBAND; opus_encoder_ctl(e,OPUS_SET_MAX_BANDWIDTH(OPUS_BANDWIDTH_FULLBAND)); set.bitrate=vc_range(&r,10000,26000); opus_encoder_ctl(e,OPUS_SET_BITRATE(set.bitrate)); fidx=2+(int)vc_below(&r,2); nframes=40; g.kind=sigkind=vc_chance(&r,1,2)?VS_VOICED:VS_SPEECHLIKE; if(ho<440) ho+=snprintf(hist+ho,sizeof hist-ho,"starved: mode=%d bw=%d bitrate=%d ",set.force_mode,set.bandwidth,set.bitrate); }
   for(int k=0;k<nframes;k++){
-    if(vc_chance(&r,1,3)) for(int i=vc_range(&r,1,3);i>0;i--){ char w[40]; int rc=vk_enc_random_ctl(e,&set,&r,ch,w,sizeof w); if(rc!=OPUS_OK) vc_viol("ctl:legal-rejected","%s returned %d",w,rc); if(ho<440) ho+=snprintf(hist+ho,sizeof hist-ho,"%s ",w); }
-    if(vc_chance(&r,1,4)) fidx=vc_below(&r,9);
-    if(vc_chance(&r,1,3)) maxb=vc_chance(&r,1,2)?VC_PICK(&r,maxb_set):vc_range(&r,1,1500);
-    if(vc_chance(&r,1,12)){ sigkind=vc_below(&r,VS_NFINITE); g.kind=sigkind; }
+    if(!starve&&vc_chance(&r,1,3)) for(int i=vc_range(&r,1,3);i>0;i--){ char w[40]; int rc=vk_enc_random_ctl(e,&set,&r,ch,w,sizeof w); if(rc!=OPUS_OK) vc_viol("ctl:legal-rejected","%s returned %d",w,rc); if(ho<440) ho+=snprintf(hist+ho,sizeof hist-ho,"%s ",w); }
+    if(!starve&&vc_chance(&r,1,4)) fidx=vc_below(&r,9);
+    if(!starve&&vc_chance(&r,1,3)) maxb=vc_chance(&r,1,2)?VC_PICK(&r,maxb_set):vc_range(&r,1,1500);
+    if(!starve&&vc_chance(&r,1,12)){ sigkind=vc_below(&r,VS_NFINITE); g.kind=sigkind; }
     int fs=vk_frame_samples(Fs,fidx); int api=(sigkind>=VS_NFINITE)?0:vc_below(&r,3);
     gen_input(&g,api,f,s16,s24,fs,ch);
     vc_gbuf pk=vc_galloc(maxb); memset(pk.p,0xEE,maxb);
